@@ -406,7 +406,8 @@ def c14_program(rng):
     shuffled = list(zip(names, vals))
     rng.shuffle(shuffled)
     obj2 = "new { " + ", ".join(f"{n}: {v}" for n, v in shuffled) + " }"
-    body = [f"let o = {obj};", f"let p = {obj2};", "println(o);", "println(o == p, p == o);"]
+    body = [f"let o = {obj};", f"let p = {obj2};", "println(o);", "println(o == p, p == o);", "println(o.keys());",
+            "let ao = o as { ? };", "println(ao.keys());", "for key in ao.keys() { print(key, \"\"); }", "println();"]
     feats.append(f"fields:{min(nfields, 12) // 4 * 4}")
     if rng.random() < 0.7:
         body += ["let j = o.to_json();", "println(j);", f"let back: {objty} = j.parse_json();", "println(back);"]
